@@ -712,15 +712,15 @@ func writeReplay(u *result, cs json.RawMessage, v *violation) string {
 	_ = os.MkdirAll(dir, 0o755)
 	path := filepath.Join(dir, fmt.Sprintf("%s-seed%d-run%d.json", prop, baseSeed, u.Idx))
 	doc := map[string]interface{}{
-		"property":  prop,
-		"tier":      tier,
-		"base_seed": baseSeed,
-		"run":       u.Idx,
-		"run_seed":  u.Seed,
-		"violation": v,
-		"case":      cs,
+		"property":           prop,
+		"tier":               tier,
+		"base_seed":          baseSeed,
+		"run":                u.Idx,
+		"run_seed":           u.Seed,
+		"violation":          v,
+		"case":               cs,
 		"original_violation": u.Violation,
-		"replay_cmd": fmt.Sprintf("bin/vcheck %s --replay %s", prop, path),
+		"replay_cmd":         fmt.Sprintf("bin/vcheck %s --replay %s", prop, path),
 	}
 	b, _ := json.MarshalIndent(doc, "", " ")
 	_ = os.WriteFile(path, b, 0o644)
@@ -841,31 +841,31 @@ func writeEvidence(agg *aggregate, m *meta, start time.Time, known map[string]in
 		}
 	}
 	cov := map[string]interface{}{
-		"evaluations":           len(agg.results),
-		"distinct_cases":        len(distinct),
-		"distinct_nontrivial":   len(nontriv),
-		"rule":                  m.Rule,
-		"samples":               samples,
-		"outcomes":              outcomes,
-		"runs_per_hour":         int64(float64(len(agg.results)) / simWall * 3600),
-		"seeds_per_hour":        int64(float64(len(agg.results)) / simWall * 3600),
-		"simulated_time_s":      float64(simNs) / 1e9,
-		"simulated_events":      events,
+		"evaluations":            len(agg.results),
+		"distinct_cases":         len(distinct),
+		"distinct_nontrivial":    len(nontriv),
+		"rule":                   m.Rule,
+		"samples":                samples,
+		"outcomes":               outcomes,
+		"runs_per_hour":          int64(float64(len(agg.results)) / simWall * 3600),
+		"seeds_per_hour":         int64(float64(len(agg.results)) / simWall * 3600),
+		"simulated_time_s":       float64(simNs) / 1e9,
+		"simulated_events":       events,
 		"distinct_interleavings": len(traces),
-		"interleaving_measure":  "distinct hashes of the sequence of (task, scheduling-point kind, lock or I/O class) of a run",
-		"distinct_states":       len(states),
-		"state_measure":         "distinct hashes of (reference map content, number of data files) observed after a step",
-		"probes":                ev.counters,
-		"faults_fired":          faults,
-		"known_findings_seen":   known,
-		"real_components":       m.Real,
-		"stubbed_components":    m.Stubbed,
-		"not_reached":           m.NotReached,
-		"images_evaluated":      ev.counters["crash_images"] + ev.counters["damage_images"],
-		"images_note":           "fault_enumeration checks: number of crash / power-loss / damaged directory images on which the real Open ran (every journal position of every run is one process-crash image)",
-		"exhaustive":            false,
-		"base_seed":             baseSeed,
-		"run_seed_derivation":   "runSeed = mix(VERIF_SEED, property, runIndex); runIndex in [0, evaluations)",
+		"interleaving_measure":   "distinct hashes of the sequence of (task, scheduling-point kind, lock or I/O class) of a run",
+		"distinct_states":        len(states),
+		"state_measure":          "distinct hashes of (reference map content, number of data files) observed after a step",
+		"probes":                 ev.counters,
+		"faults_fired":           faults,
+		"known_findings_seen":    known,
+		"real_components":        m.Real,
+		"stubbed_components":     m.Stubbed,
+		"not_reached":            m.NotReached,
+		"images_evaluated":       ev.counters["crash_images"] + ev.counters["damage_images"],
+		"images_note":            "fault_enumeration checks: number of crash / power-loss / damaged directory images on which the real Open ran (every journal position of every run is one process-crash image)",
+		"exhaustive":             false,
+		"base_seed":              baseSeed,
+		"run_seed_derivation":    "runSeed = mix(VERIF_SEED, property, runIndex); runIndex in [0, evaluations)",
 	}
 	doc := map[string]interface{}{
 		"property_id": prop,
